@@ -34,8 +34,9 @@ Proof. exact dead_session_spins_refuted. Qed.
 (* Whichever copy loop reports first, PipeData closes the OTHER side unconditionally (the model's Pipe.v closes the peer of the side
    that ended): the side named here is the one closed first in each branch of the select. *)
 Theorem c14_pipe_close_facts :
-  Gen.Shapes2.pipe_on_down_report_closes = "up"%string /\ Gen.Shapes2.pipe_on_up_report_closes = "down"%string.
-Proof. split; reflexivity. Qed.
+  Gen.Shapes2.pipe_on_down_report_closes = "up"%string /\ Gen.Shapes2.pipe_on_up_report_closes = "down"%string /\
+  Gen.Shapes2.pipe_copy_loops = "pipeDebugData(downPipe,down,up);pipeDebugData(upPipe,up,down);pipeData(downPipe,down,up);pipeData(upPipe,up,down)"%string.
+Proof. repeat split; reflexivity. Qed.
 Print Assumptions c14_pipe_close_facts.
 
 (* ================================================================================================================================
